@@ -351,7 +351,7 @@ impl<'a> World<'a> {
                 }
             }
             n += 1;
-            if start.elapsed() > rt::SETTLE_LIMIT {
+            if start.elapsed() > rt::settle_limit() {
                 self.trace.push("   (tcp barrier expired)".into());
                 self.sig.push("tcp-barrier-expired".into());
                 break;
@@ -361,7 +361,7 @@ impl<'a> World<'a> {
             }
         }
         let want = self.peer_sent;
-        if peer::wait_for(rt::SETTLE_LIMIT, || (peer::tcp_bytes_received(cfd) >= want).then_some(())).is_none() {
+        if peer::wait_for(rt::settle_limit(), || (peer::tcp_bytes_received(cfd) >= want).then_some(())).is_none() {
             self.trace.push("   (tcp delivery barrier expired)".into());
             self.sig.push("tcp-barrier-expired".into());
         }
@@ -662,7 +662,7 @@ impl<'a> World<'a> {
             }
             if !progress {
                 idle += 1;
-                if start.elapsed() > rt::SETTLE_LIMIT {
+                if start.elapsed() > rt::settle_limit() {
                     if self.in_send.is_some() {
                         let class = self.in_send.as_ref().unwrap().1.clone();
                         self.viol("hang", &class, "a pending send did not complete although the peer read everything".into());
@@ -962,7 +962,7 @@ impl<'a> World<'a> {
             if got.is_none() && expected {
                 let start = std::time::Instant::now();
                 let mut n = 0u32;
-                while got.is_none() && start.elapsed() < rt::SETTLE_LIMIT {
+                while got.is_none() && start.elapsed() < rt::settle_limit() {
                     harvest(self.rt);
                     got = self.poll_recv();
                     n += 1;
@@ -1001,7 +1001,7 @@ impl<'a> World<'a> {
             return;
         }
         if self.snd_shutdown {
-            let ok = peer::wait_for(rt::SETTLE_LIMIT, || {
+            let ok = peer::wait_for(rt::settle_limit(), || {
                 self.peer_read_some();
                 (self.peer_eof || self.fatal).then_some(())
             });
